@@ -134,6 +134,57 @@ def c12_undo_misses_split_copy(info):
     return False
 
 
+def c12_redo_splits_collected_block(info):
+    """The inverse law fails at an undo / redo call that had to re-create a nested sequence (array, text, XML text node)
+    TOGETHER WITH its elements: one element z that the call had to re-create (recorded as deleted in a consumed stack item, its
+    container's owner as well) was not re-created, and z is (a) itself the re-created copy of an element w that still sits to
+    its right in the old chain (w.redone -> z) and (b) a non-first unit of a squashed block (its left neighbour in the chain has
+    the preceding clock of the same client and is recorded in the same deletions).  ItemPtr::redo, tracing the right neighbours
+    of the block it re-creates (or of another block to its left) through their `redone` pointers, materializes w.redone = z and
+    thereby SPLITS the collected block; the split-off part is in no `to_redo` entry and is never re-created."""
+    e = info.get("event")
+    if not _is_pop(e) or "stk" not in e or "obs" not in e or not e.get("alias"):
+        return False
+    if not all(p[0] in INVERSE for p in info["preds"] if p[0].startswith("C12_")):
+        return False
+    undo = e["call"]["a"] == "undo"
+    stack = e["stk"]["u" if undo else "r"]
+    left = e["us"] if undo else e["rs"]
+    if left >= len(stack):
+        return False
+    cls = {}
+    for g in e["alias"]:
+        g = [tuple(x) for x in g]
+        for x in g:
+            cls[x] = g
+    dead = {tuple(x) for x in e["obs"]["dead"]}
+    made_now = {tuple(u["id"]) for u in e["upd"]["ins"]}
+    want = set()
+    for item in stack[left:]:
+        want |= _ids(item["del"]) - _ids(item["ins"])
+    for c, chain in e["obs"]["lst"].items():
+        head, sub = c.split("|", 1)
+        if sub != "" or ":" not in head:
+            continue                                     # nested sequences only
+        owner = tuple(int(x) for x in head.split(":"))
+        if owner not in want or owner not in dead:
+            continue
+        chain = [tuple(x) for x in chain]
+        for i, z in enumerate(chain):
+            if i == 0 or z not in want or z not in dead or z not in cls:
+                continue
+            g = cls[z]
+            earlier = g[:g.index(z)]
+            if any(x in made_now for x in g):
+                continue                                 # z was re-created by this call
+            y = chain[i - 1]
+            if y != (z[0], z[1] - 1) or y not in want:
+                continue
+            if any(w in chain[i + 1:] for w in earlier):
+                return True
+    return False
+
+
 def _recreated_families(trace):
     """(container element, children) re-created together by one undo / redo call"""
     fams = []
@@ -211,4 +262,12 @@ PROPOSED_KNOWN = [
              "deletes only the first fragment of the copy (Store::follow_redone ignores offsets inside an item) -- e.g. "
              "S1 insert 'ab'; S2 delete 'ab'; undo; S3 insert 'c' between a and b; undo; undo -> 'b' instead of ''. "
              "Candidate repair: notes/undoxml-split-copy.patch.diff (walk the copy fragment by fragment)."},
+    {"id": "KF-C12-3", "property": "C12", "predicate": "C12_OneStep",
+     "pattern": "c12_redo_splits_collected_block",
+     "what": "undo/redo that re-creates a nested sequence together with its elements loses an element: the element is itself a "
+             "re-created copy that was squashed behind its left neighbour, and its original (redone -> the copy) still sits to "
+             "its right; ItemPtr::redo traces the right neighbours through `redone`, materializes the copy and thereby splits "
+             "the block it is re-creating (or a block still waiting in to_redo); the split-off part is never re-created -- e.g. "
+             "S1 m.k1 = [r], insert q at 0; S2 delete r; undo; undo; redo -> {k1:[q]} instead of {k1:[q,r]} (same with an XML "
+             "text node and its characters). Candidate repair: notes/undoxml-redo-splits-itself.patch.diff."},
 ]
